@@ -329,6 +329,26 @@ def parity_true(items):
     return sum(1 for a in items if a) % 2 == 1
 
 
+def is_cell_label(s):
+    import re
+    return isinstance(s, str) and re.match(r'\$?[A-Za-z]+\$?[0-9]+\Z', s) is not None
+
+
+def col_value(s):
+    v = 0
+    for ch in s.upper():
+        v = 26 * v + (ord(ch) - 65) + 1
+    return v
+
+
+def col_label(n):
+    out = ''
+    while n >= 0:
+        out = chr(n % 26 + 65) + out
+        n = n // 26 - 1
+    return out
+
+
 def collapse_spaces(s):
     import re
     return re.sub(' {2,}', ' ', s)
@@ -396,7 +416,7 @@ def ceil(x):
 NATIVE_NAMES = ['Outcome', 'Dom', 'NONE_T', 'BOOL', 'INT', 'FLOAT', 'STR', 'ERR', 'DATE', 'NUMBER', 'NUMBERB', 'SCALAR',
                 'HOSTOBJ', 'ANY', 'VALUE_T', 'SEQ', 'ARGS', 'CONST', 'TUPLE', 'LISTN', 'OBJECT', 'HOSTFN', 'OMITTED', 'PROD', 'calls', 'call_result', 'result_of', 'contract',
                 'lemma', 'is_none', 'is_bool', 'is_int', 'is_float', 'is_num', 'is_numb', 'is_str', 'is_err', 'is_date',
-                'is_list', 'is_obj', 'same', 'truthy', 'implies', 'raises', 'raise_err', 'forall', 'exists', 'flat', 'collapse_spaces', 'replace_kth', 'parity_true', 'xl_type', 'date_us', 'date_from_us', 'dateutil_parse',
+                'is_list', 'is_obj', 'same', 'truthy', 'implies', 'raises', 'raise_err', 'forall', 'exists', 'flat', 'collapse_spaces', 'replace_kth', 'col_value', 'col_label', 'is_cell_label', 'parity_true', 'xl_type', 'date_us', 'date_from_us', 'dateutil_parse',
                 'int_of_text', 'text_is_int', 'float_of_text', 'text_is_float', 'errmsg', 'is_canonical', 'real',
                 'floor', 'ceil']
 ERR_NAMES = ['ERROR', 'DIV_ZERO', 'NAME', 'NOT_AVAILABLE', 'NULL', 'NUM', 'REF', 'VALUE', 'DATA']
